@@ -39,14 +39,14 @@ Print Assumptions C02_mod_modin.
 (* `%=` and `%`, every overload whose return type can hold every remainder: truncated remainder (sign of the dividend, |r| < |d|) *)
 Theorem C02_percent_operators : Percent_operators_stmt. Proof. exact percent_operators. Qed.
 Print Assumptions C02_percent_operators.
-(* int64_t %(uint64_t), int32_t %(uint32_t), int16_t %(uint16_t): the truncated remainder is returned whenever the return type can represent it *)
+(* int64_t %(uint64_t): the truncated remainder is returned whenever int64_t can represent it; int64_t %(uint32_t), int32_t %(uint16_t) (return types since e502f6c): always *)
 Theorem C02_percent_operators_narrow_return_type : Percent_narrow_return_stmt. Proof. exact percent_narrow_return. Qed.
 Print Assumptions C02_percent_operators_narrow_return_type.
 (* WHAT THE CODE RETURNS (documentation of a finding, not a convention): narrow-return `%` overloads for every divisor give the
    truncated remainder converted to the return type (C narrowing), which is NOT the remainder when it does not fit *)
 Theorem C02_percent_operators_narrow_return_wrap : Percent_narrow_wrap_stmt. Proof. exact percent_narrow_wrap. Qed.
 Print Assumptions C02_percent_operators_narrow_return_wrap.
-(* double operator%(double): every double l with 1 <= |trunc l| < 2^64; int64_t -> double rounding is a nearest value *)
+(* double operator%(double) (body since 2c6554a): every double l with trunc l <> 0: the remainder converted to double towards zero; |res| < |trunc l|, n res >= 0, exact whenever a double holds it (HISTORY conjuncts: the old body through int64_t / round-to-nearest) *)
 Theorem C02_percent_double : Percent_double_all_stmt. Proof. exact percent_double_all. Qed.
 Print Assumptions C02_percent_double.
 (* IntegerDom::div/divin/divexact/mod/modin/divmod/quoRem carry the conventions of the Integer functions they forward to *)
@@ -116,9 +116,9 @@ Print Assumptions C02_round53_is_ieee_nearest_even.
 Theorem C02_cint_casts_are_C_conversions : CInt_casts_stmt. Proof. exact cint_casts. Qed.
 Print Assumptions C02_cint_casts_are_C_conversions.
 
-(* ---- phase 4: the clause "`%` returns r with the sign of n and |r| < |d|" is REFUTED for the overloads whose return type cannot
-   hold every remainder (int64_t %(uint64_t), int32_t %(uint32_t), int16_t %(uint16_t), double %(double)): witnesses with the
-   wrong sign, and a double result equal to the divisor.  Filed as findings (frag/C02.findings.json); the table rows of these
-   overloads state the property's convention under the explicit hypothesis that the remainder is representable. *)
+(* ---- phase 4: the clause "`%` returns r with the sign of n and |r| < |d|" is REFUTED for int64_t %(uint64_t) (LIVE, known finding:
+   witness with the wrong sign; the table row states the property's convention under the hypothesis that r fits int64_t), double
+   %(double) is not exact when r is not a double (LIVE, inherent), and - HISTORY - it was refuted for the bodies of %(uint32_t),
+   %(uint16_t), %(double) before the repairs e502f6c / 2c6554a (wrong sign; double result equal to the divisor). *)
 Theorem C02_percent_narrow_return_refuted : Percent_narrow_return_refuted_stmt. Proof. exact percent_narrow_return_refuted. Qed.
 Print Assumptions C02_percent_narrow_return_refuted.
